@@ -99,6 +99,8 @@ def model_input(case: dict, real: list[str]):
     if case.get("kind") in ("aiter", "aiterbuf"):
         return None
     cfg = case["cfg"]
+    if cfg["path"] == "bufhead":
+        return None      # user-defined buffered serializer with a reserved head area (non-zero start position): oracle only
     head = (f"tmo {cfg['kind']} {cfg['layer']} {cfg['flavour']} {cfg['path']} {cfg['bufsize']} {_t(cfg['ri'])} "
             f"{s11.SEP.hex()} {s11.LIMIT} {1 if c04.code_is_fixed() else 0}")
     ops: list[str] = []
@@ -497,6 +499,14 @@ def corpus() -> list[dict]:
         nx(0, [["data", "610a620a", 0]], []), nx(1, [], []), nx(0, [["eagain", 0, 0]], [])]}]})
     cs.append({"cfg": _cfg(layer="client"), "ops": [{"op": "iter", "T": None, "nexts": [
         nx(0, [["eagain", 0, 0], ["data", "610a", 0]], [["ready", 30]], ("busy", 7)), nx(0, [["data", "-", 0]], [])]}]})
+    # buffered protocol whose serializer reserves a head area (write view smaller than the buffer): a burst that needs several
+    # reads with a zero budget - every read fills its view, so the loop must go on reading and deliver the packets
+    big = (b"abcdefghijklmnopqrstuvwxyz" * 2 + b"\n")
+    for layer in ("endpoint", "client"):
+        for T_ in (0, 3):
+            sock_ = [["data", big[i:i + 8].hex(), 0] for i in range(0, len(big), 8)]
+            cs.append({"cfg": _cfg(layer=layer, path="bufhead", bufsize=s11.VIEW), "ops": [
+                {"op": "recv", "T": T_, "lock": ["free"], "sock": sock_ + _pad_recv(s11.VIEW), "sel": [["ready", 0]] * 3}]})
     # datagram client: lock + one _retry; the other direction's lock is held by another thread meanwhile
     dsock = [["eagain", 0, 0], ["data", "6162", 0], ["eagain", 0, 0]]
     for lock_, T_ in ((["free"], 3), (["busy", 2], 5), (["busy", 6], 5), (["busy", 1], 0), (["busy", 4], None)):
@@ -620,8 +630,10 @@ def generate(rng, tier: str, boost: int):
             continue
         layer = "client" if r < 0.45 else "endpoint"
         flavour = rng.choice(["plain", "plain", "tls"])
-        path = rng.choice(["copy", "copy", "copy", "buffered"])
+        path = rng.choice(["copy", "copy", "copy", "buffered", "buffered", "bufhead"])
         bufsize = rng.choice([1, 2, 3, 4, 8, 64])
+        if path == "bufhead":
+            bufsize = s11.VIEW          # the write view of that protocol has a fixed size (the reads are asked for exactly that)
         cfg = _cfg(layer=layer, flavour=flavour, path=path, bufsize=bufsize, ri=ri)
         ops = []
         dead = False
@@ -653,6 +665,15 @@ def generate(rng, tier: str, boost: int):
                 if layer == "client":
                     op.update(gen_locks(rng))
                 ops.append(op)
+        if path == "bufhead" and rng.random() < 0.5:
+            # a burst that needs several FULL reads of the small view, zero or spent budget: the loop must go on without waiting
+            line = bytes(rng.randrange(97, 123) for _ in range(rng.randint(9, 55))) + b"\n"
+            v = s11.VIEW
+            op = {"op": "recv", "T": rng.choice([0, 0, 1, 3]), "sock": [["data", line[i:i + v].hex(), 0] for i in range(0, len(line), v)] + _pad_recv(v),
+                  "sel": [["ready", 0]] * 3}
+            if layer == "client":
+                op.update(gen_locks(rng))
+            ops.append(op)
         yield {"cfg": cfg, "ops": ops}
     try:
         from vlib import c11_async
